@@ -242,12 +242,12 @@ func refEncodeFrame(binary bool, payload []byte) []byte {
 }
 
 // VerifH_C02_wt_boundary_frames: the same delivery property for frames whose payload length
-// sits on the boundaries of the length encoding (124..129 bytes; thorough also 65535..65537):
+// sits on the boundaries of the 7-bit / 16-bit length forms (124..129 bytes; thorough also 130, 255..257; the 16/64-bit boundary is covered by C14/C15, whose symbolic lengths do not need 64 KiB of payload):
 // a frame of a boundary length, then a short one; both are delivered, once, in order, intact.
 func VerifH_C02_wt_boundary_frames() {
 	sizes := []int{124, 125, 126, 127, 128, 129}
 	if verif.Tier() > 0 {
-		sizes = append(sizes, 65535, 65536, 65537)
+		sizes = append(sizes, 130, 255, 256, 257)
 	}
 	n := sizes[verif.Choose(len(sizes))]
 	binary := verif.Bool()
